@@ -1888,7 +1888,8 @@ func (p *parser) projection(prec int) (Node, error) {
 				return nil, err
 			}
 
-			node = &SelectArraySingleCurrentNode{
+			node = &SelectArraySingleNode{
+				Child: CurrentNode{},
 				Field: ObjectValuesCurrentNode{},
 			}
 		case lexer.OpenBraceToken:
@@ -1896,7 +1897,7 @@ func (p *parser) projection(prec int) (Node, error) {
 				return nil, err
 			}
 
-			node, err = p.selectObject(nil)
+			node, err = p.selectObject(CurrentNode{})
 			if err != nil {
 				return nil, err
 			}
@@ -1905,7 +1906,7 @@ func (p *parser) projection(prec int) (Node, error) {
 				return nil, err
 			}
 
-			node, err = p.selectArray(nil)
+			node, err = p.selectArray(CurrentNode{})
 			if err != nil {
 				return nil, err
 			}
